@@ -578,7 +578,7 @@ def process_unit(path, meta, update_mirror=False):
                 if f.startswith("props"): props = f.split()[1:]
                 if f.startswith("nth"): nth = int(f.split()[1])
             item = find_item(file, "fn", header, name, nth)
-            in_trait_impl = header not in ("-", "") and re.search(r"\bfor\b", header) is not None
+            in_trait_impl = header not in ("-", "") and (re.search(r"\bfor\b", header) is not None or header.strip().startswith("trait "))
             new_lines = rewrite_fn(item, in_trait_impl, log)
             new_lines = apply_subst(new_lines, substs, log)
             ctx, ann = parse_region(region)
@@ -727,7 +727,7 @@ def generate(units_dir, unit_names, outdir, update_mirror=False):
         p = os.path.join(units_dir, u + ".rs")
         lines = process_unit(p, meta, update_mirror)
         open(os.path.join(outdir, u + ".rs"), "w").write("\n".join(lines))
-    root = ["#![feature(panic_internals)]", "#![allow(internal_features)]", "#![allow(unused_imports, unused_variables, unused_mut, unused_parens, unused_assignments, dead_code, non_snake_case, non_upper_case_globals, unused_braces, unreachable_code)]",
+    root = ["#![feature(panic_internals)]", "#![feature(sized_hierarchy)]", "#![allow(internal_features)]", "#![allow(unused_imports, unused_variables, unused_mut, unused_parens, unused_assignments, dead_code, non_snake_case, non_upper_case_globals, unused_braces, unreachable_code)]",
             "use vstd::prelude::*;"]
     for u in unit_names:
         root.append("pub mod %s;" % u)
